@@ -133,10 +133,12 @@ impl ParseError {
             false => 0,
         };
         // 字符范围上限 | 后续截取不包含
-        let char_range_right = match index + ERR_CHAR_VIEW_RANGE + 1 < env.len() {
+        let char_range_right = match index.saturating_add(ERR_CHAR_VIEW_RANGE + 1) < env.len() {
             true => index + ERR_CHAR_VIEW_RANGE + 1,
             false => env.len(),
         };
+        // 头索引可能已越过环境末尾（如未闭合的括弧被「跳过」之后）：下限不得超过上限
+        let char_range_left = char_range_left.min(char_range_right);
         // 截取字符，生成环境
         env[char_range_left..char_range_right].into()
     }
